@@ -31,7 +31,7 @@ class System:
         d = {"shells": [s.to_json() for s in self.shells],
              "T": None if self.T is None else np.round(self.T, 12).tolist(),
              "env": {k: (np.round(np.asarray(v, dtype=float), 12).tolist() if not isinstance(v, (str, int, float)) else v)
-                     for k, v in sorted(self.env.items())}}
+                     for k, v in sorted(self.env.items()) if k != "fixed_basis"}}
         return hashlib.sha1(json.dumps(d, sort_keys=True).encode()).hexdigest()
 
     def nfun(self):
@@ -81,6 +81,11 @@ def integral_quantities(eri_cap=30, names=None):
     Q = collections.OrderedDict()
     Q["overlap"] = (lambda g, e, T: overlap_integral(g, **_kw(T)), (0, 1))
     Q["overlap_asymmetric"] = (lambda g, e, T: overlap_integral_asymmetric(g, g, T, T), (0, 1))
+    # second basis set fixed (a Cartesian d and a spherical p shell): only the first index follows the rewrite
+    Q["overlap_asymmetric_vs_fixed"] = (
+        lambda g, e, T: overlap_integral_asymmetric(g, [gshell(s_) for s_ in e["fixed_basis"]], T, None), (0,))
+    Q["overlap_asymmetric_fixed_first"] = (
+        lambda g, e, T: np.swapaxes(overlap_integral_asymmetric([gshell(s_) for s_ in e["fixed_basis"]], g, None, T), 0, 1), (0,))
     Q["kinetic"] = (lambda g, e, T: kinetic_energy_integral(g, **_kw(T)), (0, 1))
     Q["point_charge"] = (lambda g, e, T: point_charge_integral(g, e["charge_coords"], e["charges"], **_kw(T)), (0, 1))
     Q["nuclear"] = (lambda g, e, T: nuclear_electron_attraction_integral(g, e["charge_coords"], e["charges"], **_kw(T)), (0, 1))
@@ -163,6 +168,8 @@ class Explorer:
         nb = nbasis(st.shells)
         for name, (fn, axes) in self.iq.items():
             if name.startswith("eri") and nb > self.eri_cap:
+                continue
+            if "fixed" in name and "fixed_basis" not in st.env:
                 continue
             out[name] = fn(g, st.env, st.T)
             self.o.call()
